@@ -85,7 +85,7 @@ func (e *refEnd) SetDeadline(t time.Time) error      { return e.sw.SetDeadline(t
 func (e *refEnd) SetReadDeadline(t time.Time) error  { return e.sw.SetReadDeadline(t) }
 func (e *refEnd) SetWriteDeadline(t time.Time) error { return e.sw.SetWriteDeadline(t) }
 
-func interleavedConns(c *mon.Case, r *mon.Run, base string, k int, seed uint64) {
+func interleavedConns(c *mon.Case, r *mon.Run, base string, k int, seed uint64, parallel bool) {
 	rng := mon.NewRand(seed)
 	dir, err := os.MkdirTemp(base, "il-")
 	if err != nil {
@@ -158,6 +158,15 @@ func interleavedConns(c *mon.Case, r *mon.Run, base string, k int, seed uint64) 
 			}
 		}
 		links = append(links, mon.Link{Name: fmt.Sprintf("conn%d-%s", i, hello.Type), A: res.conn, B: &refEnd{sw: sw, sess: sess, rest: hello.Rest}})
+	}
+	if parallel {
+		// the same group on all processors at once instead
+		wait := mon.Parallel(c, r, "parallel-connections", links, []int{40000, 150000}[seed/3%2], []int{6000, 70000}[seed/6%2], seed)
+		for _, w := range wires {
+			w.Close()
+		}
+		wait()
+		return
 	}
 	mon.Interleave(c, r, "interleaved-connections", links, seed)
 	for _, w := range wires {
